@@ -15,5 +15,10 @@ CONSTANTS
   RawMags <- RawMagsOne
   StepUsesDoubleInv = FALSE
   DurationWraps = FALSE
+  Jumps <- JumpsSmall
+  StepAt = {1, 2, 3}
+  MaxInDo = 0
+  ReadsNowFirst = FALSE
+  StepDen = 4
 VIEW ViewGen
 INVARIANTS Emit
